@@ -81,7 +81,7 @@ class Proc(object):
     __slots__ = ('pid', 'parent', 'children', 'state', 'wstatus', 'behaviour', 'argv',
                  'env', 'cwd', 'close_fds', 'shell', 'executable', 'spawn_time',
                  'death_time', 'signals', 'out_w', 'err_w', 'watcher', 'wid', 'role',
-                 'inherit_fds', 'is_worker', 'popen', 'reaped_by', 'pending_death', 'pass_fds')
+                 'inherit_fds', 'is_worker', 'popen', 'reaped_by', 'pending_death', 'pass_fds', 'orig_parent')
 
     def __init__(self, pid):
         self.pid = pid
@@ -109,6 +109,7 @@ class Proc(object):
         self.reaped_by = None
         self.pending_death = False
         self.pass_fds = ()
+        self.orig_parent = None
 
 
 class SimKernel(object):
@@ -173,6 +174,7 @@ class SimKernel(object):
     def spawn_child_of(self, parent, behaviour):
         p = Proc(self.new_pid())
         p.parent = parent
+        p.orig_parent = parent
         p.behaviour = behaviour
         p.role = 'child'
         p.watcher = parent.watcher
